@@ -498,6 +498,9 @@ fn spawn_worker(id: &str, tier: Tier, shard: usize, n: usize, from: u64, active:
         .arg(n.to_string())
         .arg(from.to_string())
         .arg(active.iter().cloned().collect::<Vec<_>>().join(","))
+        // 16 shard workers already use every core; iwe's internal rayon pool is kept small here
+        // (pool size is an explored dimension of C16 only)
+        .env("RAYON_NUM_THREADS", std::env::var("MC_RAYON_THREADS").unwrap_or("2".into()))
         .stdin(Stdio::null())
         .stdout(Stdio::piped())
         .stderr(Stdio::null())
